@@ -15,7 +15,8 @@ RULE = ('Hypothesis **kern scores organised in measures (kv/docgen.py measure_do
         'excerpt must be exactly the lines of the full export that belong to measures a..b plus the closing barline, '
         'unmodified and in order; lines before them are interpretations only; list(doc) == [1..M]; the single-measure '
         'exports partition the data lines of the full export; interleaved and nested iterations are independent; the '
-        'illegal shapes raise ValueError (also for scores without any measure, M = 0: header, interpretations, terminator).  A second profile keeps splits open across barlines.  An evaluation is '
+        'illegal shapes raise ValueError; a quarter of the scores carry global comment lines, and in a third of the cases the document has '
+        'been asked for its spine types and exported under a narrow category filter before the ranges are taken (also for scores without any measure, M = 0: header, interpretations, terminator).  A second profile keeps splits open across barlines.  An evaluation is '
         'one (document, a, b); non-trivial when M >= 3 and 1 < a and b < M, or the score has a pick-up, or no final '
         'barline.')
 ASSUMPTIONS = ['measure numbering: barline rows open measures; a pick-up before the first barline is measure 1.  kernpy also '
@@ -36,7 +37,11 @@ def cases(draw, across=False):
             (i1, k1), (i2, k2) = tc[0], tc[-1]
             doc['rows'][i1]['c'][k1] = dict(doc['rows'][i1]['c'][k1], t='"Ich', e='"Ich')
             doc['rows'][i2]['c'][k2] = dict(doc['rows'][i2]['c'][k2], t='Gott"', e='Gott"')
-    return {'doc': doc, 'file': draw(st.booleans())}  # imported with kernpy.load from a file in half of the cases
+    if draw(st.integers(0, 3)) == 0:
+        doc = draw(D.with_global_comments(doc))  # '!!' lines between the rows, half of them directly after a barline
+    # in a third of the cases the document has already been asked for its spine types / exported under a narrow category
+    # filter when the ranges are taken (a read-only call made earlier must not change them)
+    return {'doc': doc, 'file': draw(st.booleans()), 'asked_before': draw(st.integers(0, 2)) == 0}  # imported with kernpy.load from a file in half of the cases
 
 
 def check(case):
@@ -46,6 +51,10 @@ def check(case):
     a_ = S.analyze(doc)
     mixed = any(t != '**kern' for t in doc['types'])
     kw = {'spine_types': ['**kern']} if mixed else {}
+    if case.get('asked_before'):
+        kp.spine_types(kdoc)
+        kp.dumps(kdoc, include=[kp.TokenCategory.BARLINES, kp.TokenCategory.SIGNATURES])
+        kp.is_monophonic(kdoc)
     B, label = MS.choose_numbering(doc, kdoc)
     M = len(B)
     if list(kdoc) != list(range(1, M + 1)):
